@@ -371,7 +371,8 @@ class ChangeTarget(Generic[R], SMCAlgorithm[R]):
         self,
         key: PRNGKey,
     ) -> ParticleCollection[R]:
-        collection = self.prev.run_smc(key)
+        key, sub_key = jrandom.split(key)
+        collection = self.prev.run_smc(sub_key)
 
         # Convert the existing set of particles and weights
         # to a new set which is properly weighted for the new target.
@@ -400,7 +401,8 @@ class ChangeTarget(Generic[R], SMCAlgorithm[R]):
         key: PRNGKey,
         retained: ChoiceMap,
     ) -> ParticleCollection[R]:
-        collection = self.prev.run_csmc(key, retained)
+        key, sub_key = jrandom.split(key)
+        collection = self.prev.run_csmc(sub_key, retained)
 
         # Convert the existing set of particles and weights
         # to a new set which is properly weighted for the new target.
